@@ -152,7 +152,7 @@ func (c *c42conn) Close() error {
 
 // hang guard for a stream that is neither accepted, handled nor closed; after the first
 // hang the remaining enumeration is abandoned (the violation is already established)
-const c42hangGuard = 3 * time.Second
+const c42hangGuard = 30 * time.Second
 
 var c42abort atomic.Bool
 
